@@ -210,9 +210,15 @@ func dataAccumulator(b literal.Builder) ElementHook {
 		s    *node.Node
 		p    *predicate.Predicate
 		o    *triple.Object
+		cur  *Statement
 	)
 
 	hook = func(st *Statement, ce ConsumedElement) (ElementHook, error) {
+		if st != cur {
+			// A new statement is being parsed; forget any partial triple left
+			// behind by a statement that failed to parse.
+			cur, s, p, o = st, nil, nil, nil
+		}
 		if ce.IsSymbol() {
 			return hook, nil
 		}
@@ -355,8 +361,13 @@ func whereSubjectClause() ElementHook {
 	var (
 		hook         ElementHook
 		lastNopToken *lexer.Token
+		cur          *Statement
 	)
 	hook = func(st *Statement, ce ConsumedElement) (ElementHook, error) {
+		if st != cur {
+			// New statement; drop the state left by a previously parsed one.
+			cur, lastNopToken = st, nil
+		}
 		if ce.IsSymbol() {
 			return hook, nil
 		}
@@ -510,8 +521,13 @@ func wherePredicateClause() ElementHook {
 	var (
 		hook         ElementHook
 		lastNopToken *lexer.Token
+		cur          *Statement
 	)
 	hook = func(st *Statement, ce ConsumedElement) (ElementHook, error) {
+		if st != cur {
+			// New statement; drop the state left by a previously parsed one.
+			cur, lastNopToken = st, nil
+		}
 		if ce.IsSymbol() {
 			return hook, nil
 		}
@@ -582,8 +598,13 @@ func whereObjectClause() ElementHook {
 	var (
 		hook         ElementHook
 		lastNopToken *lexer.Token
+		cur          *Statement
 	)
 	hook = func(st *Statement, ce ConsumedElement) (ElementHook, error) {
+		if st != cur {
+			// New statement; drop the state left by a previously parsed one.
+			cur, lastNopToken = st, nil
+		}
 		if ce.IsSymbol() {
 			return hook, nil
 		}
@@ -786,8 +807,13 @@ func varAccumulator() ElementHook {
 	var (
 		hook         ElementHook
 		lastNopToken *lexer.Token
+		cur          *Statement
 	)
 	hook = func(st *Statement, ce ConsumedElement) (ElementHook, error) {
+		if st != cur {
+			// New statement; drop the state left by a previously parsed one.
+			cur, lastNopToken = st, nil
+		}
 		if ce.IsSymbol() {
 			return hook, nil
 		}
@@ -1027,8 +1053,13 @@ func collectGlobalBounds() ElementHook {
 		hook      ElementHook
 		opToken   *lexer.Token
 		lastToken *lexer.Token
+		cur       *Statement
 	)
 	hook = func(st *Statement, ce ConsumedElement) (ElementHook, error) {
+		if st != cur {
+			// New statement; drop the state left by a previously parsed one.
+			cur, opToken, lastToken = st, nil, nil
+		}
 		if ce.IsSymbol() {
 			return hook, nil
 		}
